@@ -122,6 +122,11 @@ WellTypedSchedule(I, sched) ==
     /\ DOMAIN sched = Machines(I)
     /\ \A m \in DOMAIN sched : \A i \in DOMAIN sched[m] : EOp(sched[m][i]) \in AllOps(I)
 
+WellTypedState(I, c) ==
+    /\ WellTypedSchedule(I, c.sched)
+    /\ DOMAIN c.nxt = Jobs(I) /\ DOMAIN c.jfree = Jobs(I) /\ DOMAIN c.mfree = Machines(I)
+    /\ \A j \in Jobs(I) : c.nxt[j] \in 1..(Len(I[j]) + 1)
+
 (* C01: feasibility of a (partial) schedule *)
 Feasible(I, sched) ==
     /\ DOMAIN sched = Machines(I)
